@@ -299,6 +299,7 @@ func (c *clipperBase) buildPath(op *OutPt, reverse, isOpen bool, path *Path64) b
 }
 
 func (c *clipperBase) executeInternal(ct ClipType, fillRule FillRule) {
+	c.succeeded = true
 	if ct == NoClip {
 		return
 	}
